@@ -150,9 +150,14 @@ class PermuteLettersOneWay(DisjointUnionStrategy[AvoidingWithPrefix, Word]):
     that are equivalent only through connect_cycles merging several cycles that share vertices
     (seed C02b needed them to manifest)."""
 
-    def __init__(self, perm=(1, 2, 0)):
+    def __init__(self, perm=(1, 2, 0), first_letters=None, empty_prefix_only=False):
         super().__init__(ignore_parent=False, inferrable=False, possibly_empty=False, workable=True)
         self.perm = tuple(perm)
+        # restrictions on where the strategy applies (a strategy need not apply everywhere: the
+        # directed graph of one-way rules is then only PART of the orbit graph, which is what gives
+        # depth-first cycle detection its difficult shapes)
+        self.first_letters = first_letters        # None, or the allowed first letters of the first pattern
+        self.empty_prefix_only = bool(empty_prefix_only)
 
     def _map(self, w, alphabet):
         if len(alphabet) != len(self.perm):
@@ -162,6 +167,10 @@ class PermuteLettersOneWay(DisjointUnionStrategy[AvoidingWithPrefix, Word]):
 
     def decomposition_function(self, c):
         if len(c.alphabet) != len(self.perm):
+            return None
+        if self.empty_prefix_only and (c.prefix or c.just_prefix):
+            return None
+        if self.first_letters is not None and not (c.patterns and c.patterns[0][:1] in self.first_letters):
             return None
         return (AvoidingWithPrefix(self._map(c.prefix, c.alphabet), [self._map(p, c.alphabet) for p in c.patterns],
                                    c.alphabet, c.just_prefix),)
@@ -188,14 +197,16 @@ class PermuteLettersOneWay(DisjointUnionStrategy[AvoidingWithPrefix, Word]):
     def to_jsonable(self):
         d = super().to_jsonable()
         d["perm"] = list(self.perm)
+        d["first_letters"] = self.first_letters
+        d["empty_prefix_only"] = self.empty_prefix_only
         return d
 
     @classmethod
     def from_dict(cls, d):
-        return cls(tuple(d.get("perm", (1, 2, 0))))
+        return cls(tuple(d.get("perm", (1, 2, 0))), d.get("first_letters"), d.get("empty_prefix_only", False))
 
     def __repr__(self):
-        return "PermuteLettersOneWay(%r)" % (self.perm,)
+        return "PermuteLettersOneWay(%r, %r, %r)" % (self.perm, self.first_letters, self.empty_prefix_only)
 
     def __str__(self):
         return self.formal_step()
@@ -328,7 +339,45 @@ def base_pack():
     )
 
 
-PACKS = {
+PERMS3 = [(1, 2, 0), (2, 0, 1), (1, 0, 2), (0, 2, 1), (2, 1, 0)]
+
+
+class _Packs(dict):
+    """The named packs below, plus a parametric family  ow3|<perm><letters><e>|<perm><letters><e>|<where>
+    of packs with two restricted one-way relabellings: <perm> indexes PERMS3, <letters> is a subset of
+    'abc' written as a word or '*' for no restriction, <e> is 'e' (classes with empty prefix only) or
+    '-', <where> is 'i' (both initial strategies) or 'x' (second expansion set)."""
+
+    def __missing__(self, name):
+        if not name.startswith("ow3|"):
+            raise KeyError(name)
+        _, s1, s2, where = name.split("|")
+
+        def strat(sp):
+            perm = PERMS3[int(sp[0])]
+            letters = None if sp[1:-1] == "*" else sp[1:-1]
+            return PermuteLettersOneWay(perm, letters, sp[-1] == "e")
+
+        def make():
+            a, b = strat(s1), strat(s2)
+            if where == "i":
+                return StrategyPack([RemoveFrontOfPrefix(), a, b], [], [[ExpansionStrategy()]], [AtomStrategy()],
+                                    name=name)
+            return StrategyPack([RemoveFrontOfPrefix()], [], [[ExpansionStrategy()], [a, b]], [AtomStrategy()],
+                                name=name)
+
+        return make
+
+
+def random_ow3_pack_name(rng):
+    def sp():
+        letters = rng.choice(["*", "*", "a", "b", "c", "ab", "bc", "ac"])
+        return "%d%s%s" % (rng.randrange(len(PERMS3)), letters, rng.choice("e-"))
+
+    return "ow3|%s|%s|%s" % (sp(), sp(), rng.choice("iiix"))
+
+
+PACKS = _Packs({
     "base": base_pack,
     "sym": lambda: StrategyPack([RemoveFrontOfPrefix()], [], [[ExpansionStrategy()]], [AtomStrategy()],
                                 name="sym", symmetries=[SwapLetters()]),
@@ -370,7 +419,7 @@ PACKS = {
                                              [AtomStrategy()], name="letterwise_first"),
     "letterwise_mid": lambda: StrategyPack([RemoveFrontLetterwise(2)], [], [[ExpansionStrategy()]],
                                            [AtomStrategy()], name="letterwise_mid"),
-}
+})
 
 START_SPECS = [
     ("", ["ab"], "ab"),
@@ -450,7 +499,11 @@ def random_cfg(rng):
     }
     if cfg["pack"] == "iterative" or cfg["ruledb"].startswith("forest"):
         cfg["smallest"] = False
-    if cfg["pack"].startswith("oneway3") and rng.random() < 0.85:
+    if rng.random() < 0.12:
+        cfg["pack"] = random_ow3_pack_name(rng)
+        if cfg["ruledb"].startswith("forest") and rng.random() < 0.6:
+            cfg["ruledb"] = rng.choice(["base", "forget"])
+    if cfg["pack"].startswith(("oneway3", "ow3|")) and rng.random() < 0.85:
         # the relabelling packs only act on three-letter alphabets
         cfg["start"] = rng.choice([i for i, sp in enumerate(START_SPECS) if len(sp[2]) == 3])
     # how many work packets are processed between two has_specification() calls (auto_search's
